@@ -73,6 +73,7 @@ pub mod tokio {
             #[verifier::external_body]
             pub async fn read_exact(&mut self, buf: &mut [u8]) -> (r: Result<usize, IoError>)
                 ensures final(self).contents() == old(self).contents(), final(buf)@.len() == old(buf)@.len(),
+                    final(self).io_faulty() == old(self).io_faulty(),
                     r is Ok ==> ({ let n = old(buf)@.len() as int;
                         &&& old(self).pos() + n <= old(self).contents().len()
                         &&& final(self).pos() == old(self).pos() + n
@@ -91,7 +92,8 @@ pub mod tokio {
             /// overwrites / extends at the cursor
             #[verifier::external_body]
             pub async fn write_all(&mut self, data: &[u8]) -> (r: Result<(), IoError>)
-                ensures r is Ok ==> ({
+                ensures final(self).io_faulty() == old(self).io_faulty(), r is Err ==> old(self).io_faulty(),
+                    r is Ok ==> ({
                         let p = old(self).pos() as int;
                         let c = old(self).contents();
                         let n = data@.len() as int;
@@ -107,7 +109,8 @@ pub mod tokio {
             /// truncates or zero-extends
             #[verifier::external_body]
             pub async fn set_len(&mut self, size: u64) -> (r: Result<(), IoError>)
-                ensures r is Ok ==> ({
+                ensures final(self).io_faulty() == old(self).io_faulty(), r is Err ==> old(self).io_faulty(),
+                    r is Ok ==> ({
                         let c = old(self).contents();
                         &&& final(self).pos() == old(self).pos()
                         &&& final(self).contents().len() == size
@@ -120,6 +123,7 @@ pub mod tokio {
             #[verifier::external_body]
             pub async fn flush(&mut self) -> (r: Result<(), IoError>)
                 ensures final(self).contents() == old(self).contents(), final(self).pos() == old(self).pos(),
+                    final(self).io_faulty() == old(self).io_faulty(), r is Err ==> old(self).io_faulty(),
             { unimplemented!() }
 
             #[verifier::external_body]
